@@ -20,7 +20,7 @@ type runner struct {
 	generic  int // distinct unclassified AST mismatches reported so far
 }
 
-const timeoutMillis = 5000
+const timeoutMillis = 10000
 
 // one correspondence case + the totality part of the oracle (no panic, bounded time)
 func (x *runner) check(s, class string, walk, nontrivial bool) (string, astObs) {
@@ -38,17 +38,28 @@ func (x *runner) check(s, class string, walk, nontrivial bool) (string, astObs) 
 		x.out.Count("outcome:ast")
 	}
 	x.out.Count(fmt.Sprintf("len:<2^%d", bitlen(len(s))))
-	if t := po.millis + ao.millis; t > x.slowest {
-		x.slowest = t
-	}
 	if po.panic != "" || ao.panic != "" {
 		x.reportPanic(s, po.panic+ao.panic)
 	}
-	if po.millis+ao.millis > timeoutMillis {
-		x.out.Fail(vl.OracleFail{Key: "timeout", What: fmt.Sprintf("parsing %d bytes took %d ms (limit %d)", len(s), po.millis+ao.millis, timeoutMillis),
-			Input: map[string]interface{}{"kind": "raw", "hex": vl.Hex(s)}, Expected: "AST or error in bounded time", Observed: fmt.Sprintf("%d ms", po.millis+ao.millis)})
+	if t := po.parseMillis + ao.millis; t > x.slowest {
+		x.slowest = t
+	}
+	if po.parseMillis+ao.millis > timeoutMillis && slowAgain(s) {
+		x.out.Fail(vl.OracleFail{Key: "timeout", What: fmt.Sprintf("parsing %d bytes took %d ms three times in a row (limit %d)", len(s), po.parseMillis+ao.millis, timeoutMillis),
+			Input: map[string]interface{}{"kind": "raw", "hex": vl.Hex(s)}, Expected: "AST or error in bounded time", Observed: fmt.Sprintf("%d ms", po.parseMillis+ao.millis)})
 	}
 	return line, ao
+}
+
+// slowAgain re-measures a slow input twice more (the machine may have been busy): it is slow only if every
+// measurement of parser.ParseString exceeds the limit.
+func slowAgain(s string) bool {
+	for i := 0; i < 2; i++ {
+		if observeAST(s).millis <= timeoutMillis {
+			return false
+		}
+	}
+	return true
 }
 
 func bitlen(n int) int {
@@ -782,8 +793,8 @@ func replay(repo, file string) ([]vl.OracleFail, error) {
 		}
 		if po.panic != "" || ao.panic != "" {
 			fails = append(fails, vl.OracleFail{Key: rf.Key, What: rf.What, Input: rf.Input, Expected: "AST or error", Observed: "panic: " + firstLine(po.panic+ao.panic)})
-		} else if po.millis+ao.millis > timeoutMillis {
-			fails = append(fails, vl.OracleFail{Key: rf.Key, What: rf.What, Input: rf.Input, Expected: "bounded time", Observed: fmt.Sprintf("%d ms", po.millis+ao.millis)})
+		} else if po.parseMillis+ao.millis > timeoutMillis && slowAgain(s) {
+			fails = append(fails, vl.OracleFail{Key: rf.Key, What: rf.What, Input: rf.Input, Expected: "bounded time", Observed: fmt.Sprintf("%d ms", po.parseMillis+ao.millis)})
 		}
 	case "doc":
 		s := vl.UnHex(str("hex"))
